@@ -239,12 +239,21 @@ def run(case, res):
     if len(t.cycles) != len(tape):
         return Violation('testbench', 'cycle_count', {'tb': len(t.cycles), 'trace': len(tape)}, tags_b)
     widths = {w['n']: w['w'] for w in script['wires']}
+    driven = {}        # an input reg holds its value until the testbench assigns it again
     for ci, cyc in enumerate(tape):
         want = {names[k]: (widths[k], v) for k, v in cyc.items()}
-        if t.cycles[ci] != want:
-            return Violation('testbench', 'input_assignments_differ_from_trace',
-                             {'cycle': ci, 'tb': sorted(t.cycles[ci].items())[:4],
-                              'trace': sorted(want.items())[:4]}, tags_b)
+        for vn, (w, v) in t.cycles[ci].items():
+            if vn not in want:
+                return Violation('testbench', 'assignment_to_unknown_input', {'cycle': ci, 'name': vn}, tags_b)
+            if w != want[vn][0] or v >= (1 << w):
+                return Violation('testbench', 'input_literal_malformed',
+                                 {'cycle': ci, 'name': vn, 'width': w, 'value': v}, tags_b)
+            driven[vn] = v
+        for vn, (w, v) in want.items():
+            if driven.get(vn) != v:
+                return Violation('testbench', 'input_assignments_differ_from_trace',
+                                 {'cycle': ci, 'input': vn, 'testbench_drives': driven.get(vn),
+                                  'trace': v}, tags_b)
     for n, w, rv in regs:
         started = init.get('regs', {}).get(n, rv if rv is not None else dv)
         if t.reg_init.get(names[n]) != started:
@@ -287,8 +296,10 @@ def run(case, res):
             return Violation('testbench', 'rst_not_held_low', {'rst': t.rst_value}, tags_b)
         vs2.val['rst'] = 0
     # (c) end to end (only meaningful when (b) holds, which it does here)
+    held = {}
     for ci, cyc in enumerate(t.cycles):
-        got = vs2.cycle({k: v[1] for k, v in cyc.items()})
+        held.update({k: v[1] for k, v in cyc.items()})
+        got = vs2.cycle(dict(held))
         for o in outs:
             tr = sim.tracer.trace[o][ci]
             if got[names[o]] != tr:
